@@ -80,7 +80,7 @@ Proof.
   destruct (sort_eqb_spec s u); constructor; congruence.
 Qed.
 Definition var_dec (a b : var) : {a = b} + {a <> b}.
-Proof. destruct (var_eqb_spec a b); [left|right]; assumption. Defined.
+Proof. decide equality; [apply sort_dec|apply string_dec]. Defined.
 
 Definition pred_eqb (a b : pred) : bool := String.eqb (psym a) (psym b) && Nat.eqb (parity a) (parity b).
 Lemma pred_eqb_spec a b : reflect (a = b) (pred_eqb a b).
@@ -90,7 +90,7 @@ Proof.
   destruct (PeanoNat.Nat.eqb_spec s u); constructor; congruence.
 Qed.
 Definition pred_dec (a b : pred) : {a = b} + {a <> b}.
-Proof. destruct (pred_eqb_spec a b); [left|right]; assumption. Defined.
+Proof. decide equality; [apply PeanoNat.Nat.eq_dec|apply string_dec]. Defined.
 
 Definition fconst_eqb (a b : fconst) : bool := String.eqb (fcname a) (fcname b) && sort_eqb (fcsort a) (fcsort b).
 Lemma fconst_eqb_spec a b : reflect (a = b) (fconst_eqb a b).
@@ -100,7 +100,7 @@ Proof.
   destruct (sort_eqb_spec s u); constructor; congruence.
 Qed.
 Definition fconst_dec (a b : fconst) : {a = b} + {a <> b}.
-Proof. destruct (fconst_eqb_spec a b); [left|right]; assumption. Defined.
+Proof. decide equality; [apply sort_dec|apply string_dec]. Defined.
 
 Definition unop_dec (a b : unop) : {a = b} + {a <> b}. Proof. decide equality. Defined.
 Definition binop_dec (a b : binop) : {a = b} + {a <> b}. Proof. decide equality. Defined.
